@@ -215,7 +215,24 @@ class Evaluator:
                 self.effect_call(fi, st.value, env)
                 continue
             if isinstance(st, ast.If):
-                t = self.test(fi, st.test, env)
+                try:
+                    t = self.test(fi, st.test, env)
+                except OrdUnknown:
+                    if not self._size_test_vs_parameter(st.test, env):
+                        raise
+                    # a comparison of the list's length with a caller-chosen number: both outcomes occur for lists of any
+                    # size, so both continuations are results of the function
+                    rest = stmts[stmts.index(st) + 1:]
+                    ra = self.block(fi, list(st.body) + rest, dict(env))
+                    rb = self.block(fi, list(st.orelse) + rest, dict(env))
+                    if ra == rb:
+                        return ra
+                    oa, ob = getattr(ra, "order", None), getattr(rb, "order", None)
+                    if isinstance(ra, L) and isinstance(rb, L) and {oa, ob} & {"ORIG"} and oa != ob:
+                        raise OrdDeviation(f"{fi.name}: when `{norm(st.test)}` {'holds' if oa == 'ORIG' else 'does not hold'} the list "
+                                           f"is returned in its original order, not ranked by cost (the other path returns "
+                                           f"{(rb if oa == 'ORIG' else ra).show()})")
+                    raise OrdUnknown(f"{fi.name}: the result depends on `{norm(st.test)}`")
                 r = self.block(fi, st.body if t else st.orelse, env)
                 if r is not None:
                     return r
@@ -224,6 +241,20 @@ class Evaluator:
                 return ("RAISE", norm(st.exc) if st.exc else "")
             raise OrdUnknown(f"{fi.name}: statement `{norm(st, 60)}` not understood")
         return None
+
+    def _size_test_vs_parameter(self, t, env) -> bool:
+        """`len(<list>) <op> <scalar parameter>` (either side)"""
+        if not (isinstance(t, ast.Compare) and len(t.ops) == 1 and isinstance(t.ops[0], (ast.Lt, ast.LtE, ast.Gt, ast.GtE, ast.Eq, ast.NotEq))):
+            return False
+        sides = [t.left, t.comparators[0]]
+
+        def is_len(e):
+            return isinstance(e, ast.Call) and isinstance(e.func, ast.Name) and e.func.id == "len" and len(e.args) == 1 \
+                and isinstance(e.args[0], ast.Name) and isinstance(env.get(e.args[0].id), L)
+
+        def is_param_scalar(e):
+            return isinstance(e, ast.Name) and isinstance(env.get(e.id), Scalar) and env[e.id].text == e.id
+        return (is_len(sides[0]) and is_param_scalar(sides[1])) or (is_len(sides[1]) and is_param_scalar(sides[0]))
 
     def assign(self, t, v, env):
         if isinstance(t, ast.Name):
